@@ -929,3 +929,68 @@ def par_11(ctx, rep):
                        'no call site of %s found in the parser modules' % f.qual if not callers else '',
                        reason='key is parameter %r; %d call site(s) pass the token value field' % (p, len(callers)))
     rep.minimum('PAR-11', 2, 'reads of reserved_syntax_strings in parser.py / python/parser.py')
+
+
+# ---------------------------------------------------------------------------
+# PAR-12: convert_node names every node after the rule that was reduced
+# ---------------------------------------------------------------------------
+def par_12(ctx, rep):
+    rep.rule('PAR-12', 'whatever convert_node returns is built for the nonterminal it was called with: through the '
+                       'node_map entry of that nonterminal, through default_node(nonterminal, ...), or as an explicitly '
+                       'named tree class whose type equals the nonterminal the enclosing tests pin down')
+    from ..model import Cls
+    from ..facts import facts_at
+    from .gr import class_type
+    import re as _re
+    n_funcs = 0
+    for rel in (BASE, PY):
+        mod = ctx.prog.mod(rel)
+        for f in mod.funcs.values():
+            if f.name != 'convert_node' or f.cls is None:
+                continue
+            n_funcs += 1
+            params = f.params()
+            if len(params) < 3:
+                raise AnalysisError('PAR-12: unexpected signature of %s' % f.qual)
+            nt = params[1]
+            rebound = _stores_to(f.node, nt)
+            rep.ob('PAR-12', rel, f.qual, 'parameter %s is never rebound' % nt, not rebound,
+                   'convert_node rebinds the nonterminal it names the node after')
+            # every construction whose result can be returned
+            returned = set()
+            for n in walk_own(f.node):
+                if isinstance(n, ast.Return) and n.value is not None:
+                    if isinstance(n.value, ast.Name):
+                        returned.add(n.value.id)
+                    else:
+                        returned.add(id(n.value))
+            sites = []
+            for n in walk_own(f.node):
+                if isinstance(n, ast.Assign) and any(isinstance(t, ast.Name) and t.id in returned for t in n.targets):
+                    sites.append(n.value)
+                if isinstance(n, ast.Return) and n.value is not None and id(n.value) in returned:
+                    sites.append(n.value)
+            for v in sites:
+                ok, why = False, 'the returned value is not a node construction the rule understands'
+                if isinstance(v, ast.Call):
+                    fn = v.func
+                    if isinstance(fn, ast.Subscript) and isinstance(fn.value, ast.Attribute) and fn.value.attr == 'node_map':
+                        ok = isinstance(fn.slice, ast.Name) and fn.slice.id == nt
+                        why = 'the node class is looked up under %s, not under the reduced nonterminal' % norm(fn.slice)
+                    elif isinstance(fn, ast.Attribute) and fn.attr == 'default_node':
+                        ok = bool(v.args) and isinstance(v.args[0], ast.Name) and v.args[0].id == nt
+                        why = 'default_node is given %s as type, not the reduced nonterminal' % (norm(v.args[0]) if v.args else None)
+                    else:
+                        c = ctx.prog.resolve_class_expr(f.mod, fn)
+                        if isinstance(c, Cls):
+                            t = class_type(c)
+                            pinned = set()
+                            for text, positive in facts_at(v, f.node):
+                                m = _re.fullmatch(_re.escape(nt) + r" == '([^']*)'", text)
+                                if m and positive:
+                                    pinned.add(m.group(1))
+                            ok = bool(t) and t[0] == 'const' and pinned == {t[1]}
+                            why = ('a %s node (type %s) is created while %s was reduced (the tests around it pin the nonterminal to %s)'
+                                   % (c.name, t[1] if t else '?', nt, sorted(pinned) or 'nothing'))
+                rep.ob('PAR-12', rel, f.qual, norm(v), ok, why)
+    rep.minimum('PAR-12', 5)
